@@ -16,7 +16,7 @@ import (
 func init() {
 	Registry["C09"] = C09
 	Metas["C09"] = Meta{
-		Explanation: "Decides the clauses of C09 by role evaluation over all sign regions of the TTL argument and of the default: (X1) the TTL computation of each cache implementation returns now+d for d > 0; for d == DefaultExpiration it substitutes the default loaded from the settings during this very call (one load, the same value is tested and added) and returns now+D for D > 0 and 0 (never expires) otherwise; every other d <= 0 yields 0; no other comparison is involved; (X2) every item a method stores carries the expiration computed in that call from that method's own TTL argument (Set / GetAndSet / GetAndRefresh on a live entry / Compute and the storing branches of GetOrSet and GetOrCompute re-arm; SetDefault and SetForever use the documented sentinels), while Get*, Range, Items and the hit branches of GetOrSet / GetOrCompute leave the stored item untouched - as rows of the reviewed reference table; (X3) GetWithExpiration reports Unix(0, e) exactly when e > 0 and the zero time otherwise, GetWithTTL reports Until(Unix(0, e)) exactly when e > 0 and NoExpiration otherwise, both only for an entry that tested unexpired; (X4) settings flow: SetDefaultExpiration stores its argument, the option functions write their own config field from their own argument, the constructor stores the normalised config's default into the setting (never a sibling field), option functions and the NewDefault family write their duration arguments on every path (no value is silently replaced by a default), and NewDefault passes its two durations to the fields of the same name; (X5) a stored (value, deadline) pair is replaced as a whole and a published entry is never written again, so a lock-free reader reports the instant that belongs to the value it reports (restated from C03/C04.P2); (X6) no duration passes through an integer type narrower than 64 bits on some supported platform (int, uint, int32, ...) on its way back into a duration - decided for every conversion in the cache package with the sizes of the 386 target, by forward value flow through arithmetic, phis and helpers that return their argument. NOT decided: arithmetic at the int64 / time.Time boundaries, wall-clock vs monotonic readings.",
+		Explanation: "Decides the clauses of C09 by role evaluation over all sign regions of the TTL argument and of the default: (X1) the TTL computation of each cache implementation returns now+d for d > 0; for d == DefaultExpiration it substitutes the default loaded from the settings during this very call (one load, the same value is tested and added) and returns now+D for D > 0 and 0 (never expires) otherwise; every other d <= 0 yields 0; no other comparison is involved; (X2) every item a method stores carries the expiration computed in that call from that method's own TTL argument (Set / GetAndSet / GetAndRefresh on a live entry / Compute and the storing branches of GetOrSet and GetOrCompute re-arm; SetDefault and SetForever use the documented sentinels), while Get*, Range, Items and the hit branches of GetOrSet / GetOrCompute leave the stored item untouched - as rows of the reviewed reference table; (X3) GetWithExpiration reports Unix(0, e) exactly when e > 0 and the zero time otherwise, GetWithTTL reports Until(Unix(0, e)) exactly when e > 0 and NoExpiration otherwise, both only for an entry that tested unexpired; (X4) settings flow: SetDefaultExpiration stores its argument, the option functions write their own config field from their own argument, the constructor stores the normalised config's default into the setting (never a sibling field), option functions and the NewDefault family write their duration arguments on every path (no value is silently replaced by a default), and NewDefault passes its two durations to the fields of the same name; (X5) a stored (value, deadline) pair is replaced as a whole and a published entry is never written again, so a lock-free reader reports the instant that belongs to the value it reports (restated from C03/C04.P2); (X1 accepts, besides the sentinel test and the sign test of the effective duration, an overflow guard 'now > MaxInt64 - d' answered with 0 and a sign test of the sum); (X6) no duration passes through an integer type narrower than 64 bits on some supported platform (int, uint, int32, ...) on its way back into a duration - decided for every conversion in the cache package with the sizes of the 386 target, by forward value flow through arithmetic, phis and helpers that return their argument. NOT decided: arithmetic at the int64 / time.Time boundaries, wall-clock vs monotonic readings.",
 		Rule:        "one obligation per (rule, function, partition or table row); non-trivial = decided from evaluated abstract paths",
 		Assumptions: []string{"time.Now / Time.Add / UnixNano / time.Unix / time.Until behave as documented"},
 	}
@@ -68,6 +68,8 @@ func C09(r *Run) *core.Report {
 			var isDef *bool
 			var dd *sym.Term
 			var pos0 *bool
+			var ovf, sumPos *bool
+			var ovfD *sym.Term
 			bad := ""
 			for i := range p.PC {
 				a := p.PC[i]
@@ -75,6 +77,16 @@ func C09(r *Run) *core.Report {
 				case a.T.Op == "cmp" && a.T.K == "==" && involves(a.T, "param", dName) && involvesConst(a.T, defC):
 					v := a.V
 					isDef = &v
+				case a.T.Op == "cmp" && a.T.K == ">" && overflowGuard(a.T) != nil:
+					// 'now > MaxInt64 - d' (or 'd > MaxInt64 - now'): the sum would not fit; the only accepted answer on the
+					// true edge is 0, which is what the wrapped (negative) sum has always been read as
+					v := a.V
+					ovf = &v
+					ovfD = overflowGuard(a.T)
+				case a.T.Op == "cmp" && a.T.K == ">" && a.T.Args[1].IsZero() && a.T.Args[0].Op == "plus":
+					// a sign test of the sum itself (a clock before 1970): non-positive is 'never expires'
+					v := a.V
+					sumPos = &v
 				case a.T.Op == "cmp" && a.T.K == ">" && a.T.Args[1].IsZero():
 					v := a.V
 					pos0 = &v
@@ -94,9 +106,16 @@ func C09(r *Run) *core.Report {
 			case !*isDef && !(dd.Op == "param" && dd.K == dName):
 				bad = "for d != DefaultExpiration the duration tested is " + dd.String() + ", not the argument"
 			}
+			if bad == "" && ovf != nil && (ovfD == nil || dd == nil || ovfD.String() != dd.String()) {
+				bad = "the overflow guard tests a duration other than the effective one"
+			}
 			if bad == "" {
 				ret := p.Ret[0]
-				if *pos0 {
+				if *pos0 && ((ovf != nil && *ovf) || (sumPos != nil && !*sumPos)) {
+					if !ret.IsZero() {
+						bad = "when now + d is not representable (or not positive) the result must be 0 (never expires), found " + ret.String()
+					}
+				} else if *pos0 {
 					okRet := false
 					if ret.Op == "plus" && len(ret.Args) == 2 {
 						for i := 0; i < 2; i++ {
@@ -308,6 +327,30 @@ func c09X6(r *Run, rep *core.Report, rule string) {
 	}
 	// (today's tree has no such conversion at all: the guard is on what was scanned; seeded/C15-* holds the positive example)
 	rep.MinCount(rule, "functions of the cache package scanned for narrowing conversions of durations", nFn, 40)
+}
+
+// overflowGuard: t is 'unixnano(now) > MaxInt64 - d' or 'd > MaxInt64 - unixnano(now)' with the constant exactly the
+// largest int64 (a guard written with a platform-sized maximum is not one on 32-bit platforms: it is reported as an
+// unexpected comparison there); the duration term d is returned.
+func overflowGuard(t *sym.Term) *sym.Term {
+	if t == nil || t.Op != "cmp" || t.K != ">" || len(t.Args) != 2 {
+		return nil
+	}
+	l, r := t.Args[0], t.Args[1]
+	if r.Op != "minus" || len(r.Args) != 2 {
+		return nil
+	}
+	if c, ok := r.Args[0].IntVal(); !ok || r.Args[0].Op != "const" || c != 9223372036854775807 {
+		return nil
+	}
+	isNow := func(x *sym.Term) bool { return x.Op == "unixnano" && len(x.Args) == 1 && x.Args[0].Op == "now" }
+	switch {
+	case isNow(l) && !isNow(r.Args[1]):
+		return r.Args[1]
+	case isNow(r.Args[1]) && !isNow(l):
+		return l
+	}
+	return nil
 }
 
 func involves(t *sym.Term, op, k string) bool {
